@@ -1,5 +1,5 @@
 (* Props_C02.v — property C02: theorem statements only. *)
-From Verif Require Import Base Sem Where_Model Where_Proofs Where_Render Where_Sem C09_Proofs Where_Spec.
+From Verif Require Import Base Sem Where_Model Where_Proofs Where_Render Where_Sem C09_Proofs Where_Spec C02_Args C02_ArgsProofs C09_Keys C09_KeysProofs.
 
 (* The grammar the WHERE text is read with (SQL precedence NOT > AND > OR): printing a
    well-formed condition tree with the minimal-parenthesis printer and parsing it back yields the
@@ -67,3 +67,67 @@ Example c02_instance :
   (exists exprs, build_chain tbl cs = Some exprs /\ exprs <> [] /\ ok_where exprs = true) /\
   (exists s, spec_chain tbl cs = Some s).
 Proof. cbv zeta. split; [vm_compute; reflexivity|]. split; eexists; [split; [vm_compute; reflexivity|split; [discriminate|vm_compute; reflexivity]]|vm_compute; reflexivity]. Qed.
+
+(* ---- from Go values to units: Statement.BuildCondition's loop over `query, args...` (C02_Args,
+   evaluated by check_case on the Go values of every map / struct / key unit of every case) ---- *)
+
+(* no condition once built is dropped by a later argument: the result extends the accumulator, for
+   every argument list *)
+Theorem c02_args_nothing_dropped : forall args n conds c,
+  bc_loop n args conds = Some c -> exists ext, c = conds ++ ext.
+Proof. exact bc_loop_extends. Qed.
+Print Assumptions c02_args_nothing_dropped.
+
+(* the primary key given as k >= 1 separate bare values (Find(&rows, 1, 2, 3), Where(3, 4),
+   Not(1, 2)): ONE condition over all k values - the unit `pk IN (k1..kn)` is indivisible *)
+Theorem c02_args_keys_complete : forall k, bc_args (repeat ABare (S k)) = [S k].
+Proof. exact keys_complete. Qed.
+Print Assumptions c02_args_keys_complete.
+
+(* ... and as one slice of n keys: one condition over all n, nothing for an empty slice *)
+Theorem c02_args_key_slice : forall n, bc_args [ABares n] = if (0 <? n)%nat then [n] else [].
+Proof. exact key_slice_complete. Qed.
+Print Assumptions c02_args_key_slice.
+
+(* typed maps: one condition per entry, whatever its value (blank string, zero, nil) *)
+Theorem c02_args_mapss_complete : forall blanks, bc_args [AMapSS blanks] = map (fun _ => 1%nat) blanks.
+Proof. exact mapss_complete. Qed.
+Print Assumptions c02_args_mapss_complete.
+Theorem c02_args_mapsi_complete : forall ars, bc_args [AMapSI ars] = ars.
+Proof. exact mapsi_complete. Qed.
+Print Assumptions c02_args_mapsi_complete.
+
+(* a struct: its readable non-zero fields; with column names selected after it: exactly the
+   selected fields, zero values included, and nothing that follows adds to it *)
+Theorem c02_args_struct_plain : forall fs, is_restricted fs = false ->
+  length (bc_args [AStruct fs]) = length (filter (fun f => gf_readable f && negb (gf_zero f)) fs).
+Proof. exact struct_plain. Qed.
+Print Assumptions c02_args_struct_plain.
+Theorem c02_args_struct_selected : forall fs strs, is_restricted fs = true ->
+  length (bc_args (AStruct fs :: strs)) = length (filter gf_selected fs).
+Proof. exact struct_selected. Qed.
+Print Assumptions c02_args_struct_selected.
+
+Example c02_args_instance :
+  bc_args [ABare; ABare; ABare] = [3%nat] /\ bc_args [AMapSS [true; false]] = [1%nat; 1%nat]
+  /\ bc_args [AStruct [mk_gf true true true; mk_gf false false true]; AStr] = [1%nat].
+Proof. repeat split. Qed.
+
+(* ---- the primary key of the model value as a unit (C09_Keys, evaluated by check_case on the model
+   values of every primary-key case) ---- *)
+
+(* whenever some record handed to Update / Updates / UpdateColumn(s) / Delete has a non-zero key field,
+   gorm's key-condition code adds the key unit - for single and composite keys, slices, Model value +
+   deleted value, and for an update value that is the model itself whatever Select / Omit name *)
+Theorem c02_key_unit_added : forall del vals, has_key vals = true -> key_cond del vals = true.
+Proof. intros del vals H. rewrite key_cond_iff. exact H. Qed.
+Print Assumptions c02_key_unit_added.
+
+Theorem c02_self_key_ignores_select : forall cols cols',
+  map (fun c => (col_pk c, col_zero c)) cols = map (fun c => (col_pk c, col_zero c)) cols' ->
+  key_cond false [VSelf cols] = key_cond false [VSelf cols'].
+Proof.
+  intros cols cols' H. unfold key_cond, update_key_conds. cbn [fold_left].
+  rewrite (self_key_ignores_select cols cols' H). reflexivity.
+Qed.
+Print Assumptions c02_self_key_ignores_select.
